@@ -111,8 +111,15 @@ pub fn check_arc(c: &ArcCase) -> CheckResult {
         pb.move_to(x, y);
         k += 1;
     }
-    pb.arc(c.cx, c.cy, c.r, c.start, c.sweep);
-    let p = pb.finish();
+    // finite parameters of any magnitude must give a path: a panic here is this property's failure as well as C07's
+    let built = std::panic::catch_unwind(std::panic::AssertUnwindSafe(move || {
+        pb.arc(c.cx, c.cy, c.r, c.start, c.sweep);
+        pb.finish()
+    }));
+    let p = match built {
+        Ok(p) => p,
+        Err(_) => return Err(format!("arc({}, {}, {}, {}, {}) panicked instead of producing a path", c.cx, c.cy, c.r, c.start, c.sweep)),
+    };
     if p.ops.len() < k {
         return Err(format!("finish() returned {} ops after {} builder calls and an arc", p.ops.len(), k));
     }
@@ -216,6 +223,8 @@ fn arc_strategy() -> BoxedStrategy<ArcCase> {
         4 => (-6.0 * pi)..(6.0 * pi),
         2 => (-24i32..=24).prop_map(move |k| k as f32 * pi / 4.0),
         1 => prop::sample::select(vec![0.0f32, 1e-3, -1e-3, 2.0 * pi, -2.0 * pi, 6.3, -6.3]),
+        // 'sweep of either sign and magnitude': astronomically over-long sweeps are still one full circle
+        1 => prop::sample::select(vec![1.0e6f32, -1.0e6, 1.0e18, -1.0e18, 1.0e30, -3.0e38, f32::MAX, f32::MIN]),
     ];
     let pc = || -100.0f32..100.0;
     let pop = prop_oneof![
@@ -314,11 +323,11 @@ fn xf_strategy() -> BoxedStrategy<XfCase> {
 pub fn property(_ctx: &Ctx) -> Property {
     Property {
         id: "C20",
-        rule: "part rect: finite x,y,w,h (random, integers, +-0, tiny, +-3999, +-1e6; negative and zero sizes), optionally after other ops; oracle = the exact five ops with f32 sums. part arc: centre +-100, r in {0, 1e-3, 0.5..200}, start in +-4pi, sweep in +-6pi plus 0/+-2pi/multiples of pi/4/tiny, with or without a current point, after 0-4 earlier builder calls (move_to, line_to, curves, close, rect) whose ops must come back unchanged and after which the arc still begins with a LineTo; oracle = f64 evaluation of the returned ops (leading LineTo to the start point, only QuadTo after, every sampled point at distance r within 0.5%, polar angle monotone in the sweep direction, total angle = clamp(sweep,+-2pi), end point). part transform: random op lists (all op kinds, any order) x all transform classes incl. singular and mirrored; oracle = same op kinds in order, every point = T*p in f64 within 4 ulp, winding kept, finish() preserves call order. Non-trivial: arc with |sweep|>pi/4 or negative sweep; rect with w != h and negative size or non-zero origin; non-identity transform on >=2 ops; distinct by hash of the case.",
+        rule: "part rect: finite x,y,w,h (random, integers, +-0, tiny, +-3999, +-1e6; negative and zero sizes), optionally after other ops; oracle = the exact five ops with f32 sums. part arc: centre +-100, r in {0, 1e-3, 0.5..200}, start in +-4pi, sweep in +-6pi plus 0/+-2pi/multiples of pi/4/tiny/huge (1e6..f32::MAX, either sign), with or without a current point, after 0-4 earlier builder calls (move_to, line_to, curves, close, rect) whose ops must come back unchanged and after which the arc still begins with a LineTo; oracle = f64 evaluation of the returned ops (leading LineTo to the start point, only QuadTo after, every sampled point at distance r within 0.5%, polar angle monotone in the sweep direction, total angle = clamp(sweep,+-2pi), end point). part transform: random op lists (all op kinds, any order) x all transform classes incl. singular and mirrored; oracle = same op kinds in order, every point = T*p in f64 within 4 ulp, winding kept, finish() preserves call order. Non-trivial: arc with |sweep|>pi/4 or negative sweep; rect with w != h and negative size or non-zero origin; non-identity transform on >=2 ops; distinct by hash of the case.",
         assumptions: vec!["f32 noise floor of 4e-6*(|centre|+r+1) added to the 0.5% radius tolerance; angle checks skipped when r is below 1000x that floor"],
         parts: vec![
             part_outside_c07("rect", 50_000, 800_000, rect_strategy, check_rect),
-            part_outside_c07("arc", 120_000, 2_500_000, arc_strategy, check_arc),
+            part("arc", 120_000, 2_500_000, arc_strategy, check_arc),
             part_outside_c07("transform", 50_000, 800_000, xf_strategy, check_xf),
         ],
         min_class_fraction: vec![("arc", "negative-sweep", 0.3), ("arc", "beyond-full-turn", 0.1), ("arc", "multi-quad", 0.5), ("arc", "arc-directly-after-close", 0.05), ("rect", "negative-size", 0.2), ("transform", "xf:unit-diagonal-shear", 0.01)],
